@@ -96,6 +96,9 @@ def run(res):
     # connection's error (never as "closed", which core takes as "endpoint shut down"), others are not held up, Close returns
     from .. import stream
     res.coverage["stream_transport_fault_scenarios"] = stream.run(res, "C12")
+    # the handshaker as a state machine: random Start / completion / Wait / Close histories against Model/Handshaker.v
+    from .. import hsm
+    res.coverage["handshaker_state_machine"] = hsm.run(res, "C12")
     text = open(lp).read()
     nf = int(re.search(r"n_functions_emitted : N := (\d+)", text).group(1))
     nt = int(re.search(r"n_functions_total : N := (\d+)", text).group(1))
